@@ -2,7 +2,7 @@
 from engine.hlib import *  # noqa
 
 from praatio.utilities import textgrid_io, errors
-from praatio.utilities.constants import Interval
+from praatio.utilities.constants import Interval, MIN_INTERVAL_LENGTH as MIN
 
 FUNCS = [
     "praatio.utilities.textgrid_io._prepTgForSaving",
@@ -20,16 +20,17 @@ def _ts(k):
     return [n for i in range(k) for n in ("s%d" % i, "e%d" % i)]
 
 
-def _mkdict(lo, hi, ents, with_point=True):
+def _mkdict(lo, hi, ents, with_point=True, pt=None, tspan=None):
     """the dictionary Textgrid.save builds: real tiers -> real _tgToDictionary"""
     from praatio.data_classes.interval_tier import IntervalTier
     from praatio.data_classes.point_tier import PointTier
     from praatio.data_classes.textgrid import Textgrid, _tgToDictionary
 
     tg = Textgrid(lo, hi)
-    tg.addTier(IntervalTier("i", [Interval(*e) for e in ents], lo, hi))
+    tlo, thi = tspan if tspan is not None else (lo, hi)
+    tg.addTier(IntervalTier("i", [Interval(*e) for e in ents], tlo, thi))
     if with_point:
-        tg.addTier(PointTier("p", [(lo, "q")], lo, hi))
+        tg.addTier(PointTier("p", [(lo if pt is None else pt, "q")], lo, hi))
     return _tgToDictionary(tg)
 
 
@@ -79,22 +80,24 @@ def check_saved(ents, res, fmin, fmax, thr):
 
 def ob_fill(k, thr_kind, timeout):
     """no overrides; thr_kind: 'none' | 'sym'"""
-    names = ["hi", "thr"] + _ts(k)
+    names = ["hi", "thr", "pt"] + _ts(k)
 
-    def pre(hi, thr, *ts):
+    def pre(hi, thr, pt, *ts):
         # the span itself is at least one threshold long (otherwise no conformant file exists)
-        return ivs_wf_pre(0.0, hi, *ts) & (hi <= 512.0) & (thr > 0) & (thr <= hi)
+        return ivs_wf_pre(0.0, hi, *ts) & (hi <= 512.0) & (thr > 0) & (thr <= hi) & within(0.0, hi, pt)
 
-    def body(hi, thr, *ts):
+    def body(hi, thr, pt, *ts):
         ents = [(ts[2 * i], ts[2 * i + 1], LABELS[i]) for i in range(k)]
         th = None if thr_kind == "none" else thr
-        d = _mkdict(0.0, hi, ents)
+        d = _mkdict(0.0, hi, ents, pt=pt)
         # region split (known finding): some interval of the blank-filled tier reaches the threshold
         out = textgrid_io._prepTgForSaving(d, True, None, None, th)
         if out["xmin"] != 0.0 or out["xmax"] != hi:
             return "file span changed without an override"
-        if [tuple(e) for e in out["tiers"][1]["entries"]] != [(0.0, "q")]:
+        if [tuple(e) for e in out["tiers"][1]["entries"]] != [(pt, "q")]:
             return "point tier changed"
+        if (out["tiers"][1]["xmin"], out["tiers"][1]["xmax"]) != (0.0, hi):
+            return "point tier span changed"
         return check_saved(ents, out["tiers"][0]["entries"], 0.0, hi, th)
 
     return Ob("fill-k%d-thr-%s" % (k, thr_kind), F(*names), body, pre, fmode="real", timeout=timeout, funcs=FUNCS, bounds="k=%d labelled intervals with arbitrary gaps in [0,hi<=512]; threshold %s" % (k, "None" if thr_kind == "none" else "symbolic in (0,512]"),
@@ -124,6 +127,32 @@ def ob_override(k, thr_kind, timeout):
 
     return Ob("override-k%d-thr-%s" % (k, thr_kind), F(*names), body, pre, fmode="real", timeout=timeout, funcs=FUNCS, bounds="k=%d intervals; min/max overrides anywhere in [0,1024] (below, equal, above, inside the data span)" % k,
               canaries=[{"target": "praatio.utilities.textgrid_io:_fillInBlanks", "find": "if float(newEntries[-1][1]) > float(maxTime):", "replace": "if float(newEntries[-1][0]) > float(maxTime):"}] if (k == 2 and thr_kind == "none") else [])
+
+
+def ob_spans(k, timeout):
+    """a tier whose own span is narrower than the textgrid's keeps that span on save
+    (blank filling off, no overrides)"""
+    names = ["hi", "tlo", "thi"] + _ts(k)
+
+    def pre(hi, tlo, thi, *ts):
+        return ivs_wf_pre(tlo, thi, *ts) & (0.0 <= tlo) & (tlo <= thi) & (thi <= hi) & (hi <= 512.0)
+
+    def body(hi, tlo, thi, *ts):
+        ents = [(ts[2 * i], ts[2 * i + 1], LABELS[i]) for i in range(k)]
+        d = _mkdict(0.0, hi, ents, tspan=(tlo, thi))
+        out = textgrid_io._prepTgForSaving(d, False, None, None, MIN)
+        if (out["xmin"], out["xmax"]) != (0.0, hi):
+            return "file span changed"
+        t = out["tiers"][0]
+        if (t["xmin"], t["xmax"]) != (tlo, thi):
+            return "tier span not written as it is in memory"
+        if (out["tiers"][1]["xmin"], out["tiers"][1]["xmax"]) != (0.0, hi):
+            return "point tier span"
+        if [tuple(e) for e in t["entries"]] != ents:
+            return "entries"
+        return True
+
+    return Ob("tier-span-kept-k%d" % k, F(*names), body, pre, fmode="real", timeout=timeout, funcs=FUNCS[:1], bounds="k=%d intervals in a tier spanning [tlo,thi] inside the textgrid span [0,hi]" % k)
 
 
 def ob_noblanks(k, timeout):
@@ -157,7 +186,10 @@ def obligations(tier):
         obs.append(ob_fill(0, "sym", 30))
         obs.append(ob_override(0, "sym", 30))
         obs.append(ob_noblanks(2, 60))
+        obs.append(ob_spans(2, 120))
     else:
+        for k in (0, 1, 2, 3):
+            obs.append(ob_spans(k, 600))
         for tk in ("none", "sym"):
             for k in (0, 1, 2, 3):
                 obs.append(ob_fill(k, tk, 2400))
